@@ -241,6 +241,13 @@ var c11Embeddings = []c11Embedding{
 	{"and", 1, func(e []string) string { return e[0] + " && true" }, []bool{true}},
 	{"or", 1, func(e []string) string { return "false || " + e[0] }, []bool{true}},
 	{"paren", 1, func(e []string) string { return "(" + e[0] + ")" }, []bool{true}},
+	// operands whose type is narrowed away (condition of the a && b || c idiom and its relatives)
+	{"ternary-condition", 1, func(e []string) string { return e[0] + " && 'a' || 'b'" }, []bool{true}},
+	{"ternary-condition-eq", 1, func(e []string) string { return e[0] + " == 'x' && 'a' || 'b'" }, []bool{true}},
+	{"or-then-and", 1, func(e []string) string { return "(" + e[0] + " || 'a') && 'b'" }, []bool{true}},
+	{"not-and-and", 1, func(e []string) string { return "!(" + e[0] + " && true) && 'y'" }, []bool{true}},
+	{"ternary-both", 2, func(e []string) string { return e[0] + " && " + e[1] + " || 'b'" }, []bool{true, true}},
+	{"ternary-in-format", 1, func(e []string) string { return "format('{0}', " + e[0] + " && 'a' || 'b')" }, []bool{true}},
 	{"format-arg", 1, func(e []string) string { return "format('{0} {1}', 'a', " + e[0] + ")" }, []bool{true}},
 	{"toJSON", 1, func(e []string) string { return "toJSON(" + e[0] + ")" }, []bool{true}},
 	{"fromJSON-nested", 1, func(e []string) string { return "fromJSON(toJSON(" + e[0] + ")).x" }, []bool{true}},
